@@ -236,6 +236,12 @@ theorem createSlice_lastid (m : Int) (ks : List Key) (hm : 0 ≤ m) (h : AllZero
         · rfl
         · simp [backfillRev_preset _ _ _ hp]
 
+theorem backfillMaps_go_present (n : Nat) (s : Int) :
+    backfillMaps.go (List.replicate n true) s = (up s n).map some := by
+  induction n generalizing s with
+  | zero => simp [backfillMaps.go, up]
+  | succ n ih => simp [List.replicate_succ, backfillMaps.go, up, ih]
+
 /-! ### batches -/
 
 theorem createBatchesAux_spec (returning : Bool) (bs : List (List Key)) (m : Int)
